@@ -19,7 +19,7 @@ from vlib import gen, monitors, pedgen
 from vlib.oracles import model as M
 
 ID = "C18"
-TECHNIQUE = "runtime monitoring: transition vectors of the compiled pedigree Gibbs/MH kernels and acceptance/state of the parental swap move (forced and seeded draws) observed on generated pedigrees; exact-conditional and detailed-balance oracle w.r.t. a brute-force joint"
+TECHNIQUE = "runtime monitoring: transition vectors of the compiled pedigree Gibbs/MH kernels and acceptance/state of the parental swap move (forced and seeded draws) observed on generated pedigrees; exact-conditional and detailed-balance oracle w.r.t. a brute-force joint; exact kernel of the whole sample_step; program level: arrays reaching the pedigree sampler and the PEDERR computation inside mchap call-pedigree vs arrays rebuilt from the user's --sample-parents / --gamete-* files"
 LEVEL = "exploration"
 LEVEL_TEXT = (
     "Exploration: on generated small pedigrees (founders, duos, trios, half/full sibs, selfing, three generations, mixed "
@@ -34,6 +34,7 @@ RULE = (
     "case = one (pedigree instance, joint state, individual, allele position, move type) vector or one swap (state, pair, index_p, index_q); "
     "non-trivial = the individual has a known parent or a child; distinct by hash of (instance id, state, move parameters)"
 )
+LEVEL_TEXT += " Also observed: the exact kernel of the whole sample_step (nu P = nu); at program level the pedigree arrays (parents, gamete ploidy, lambda, error, ploidy, each sample's own reads) reaching the sampler and the PEDERR computation inside mchap call-pedigree equal arrays rebuilt from the user's files (shuffled lines, per-gamete values all different, BAM-less parents)."
 ASSUMPTIONS = ["states of zero joint probability are unreachable and skipped", "allele frequencies strictly positive"]
 TOL = 1e-9
 
